@@ -100,7 +100,13 @@ impl Report {
     }
   }
   /// `key` identifies the failing case class (matched against known_findings.json).
+  /// A key with a path component starting with '~' marks a deviation from the reference specification that the property
+  /// allows (e.g. a one-sided property: refusing something the reference accepts): it is reported as drift, not counted.
   pub fn mismatch(&mut self, key: &str, case: &Value, expected: Value, observed: Value, note: &str) {
+    if key.starts_with('~') || key.contains("/~") {
+      self.reference_drift(&key.replace('~', ""), case, expected, observed);
+      return;
+    }
     self.count("mismatches_total");
     if self.mismatches.len() < self.max_mismatches {
       self.mismatches.push(json!({
